@@ -1074,11 +1074,11 @@ class Interp:
         for k, v in enumerate(captures.items):
             if isinstance(v, Ref):
                 key = ('up', k, len(fr.store), 'ro')
-                val = fr._project(fr.store.get(v.root, TOP), v.proj)
+                val = self._ref_value(fr, v)
                 for _ in range(8):
                     if not isinstance(val, Ref):
                         break
-                    val = fr._project(fr.store.get(val.root, TOP), val.proj)
+                    val = self._ref_value(fr, val)
                 extra[key] = val
                 caps2.append(Ref(key, []))
             else:
@@ -1599,6 +1599,16 @@ class Interp:
             sub.propagate_hooks = True
         return sub
 
+    @staticmethod
+    def _ref_value(fr, r):
+        """Value a reference designates; a by-reference parameter local (only its pointee is in the store) reads as a
+        reference to that pointee."""
+        if r.root not in fr.store and isinstance(r.root, int) and ('*', r.root) in fr.store:
+            if not r.proj:
+                return Ref(('*', r.root), [])
+            return fr._project(fr.store[('*', r.root)], [e for e in r.proj if e[0] != 'deref'])
+        return fr._project(fr.store.get(r.root, TOP), r.proj)
+
     def _call_closure_rw(self, fr, path, captures, args, where):
         """Call a closure whose captured `&mut` state lives in frame `fr`: captured references
         are re-rooted in the callee frame and the final values written back."""
@@ -1621,13 +1631,13 @@ class Interp:
         for k, v in enumerate(captures.items):
             if isinstance(v, Ref):
                 key = ('up', k, len(fr.store))
-                val = fr._project(fr.store.get(v.root, TOP), v.proj)
+                val = self._ref_value(fr, v)
                 for _ in range(8):
                     # a reference to a reference: follow it inside the caller's frame
                     if not isinstance(val, Ref):
                         break
                     v = val
-                    val = fr._project(fr.store.get(v.root, TOP), v.proj)
+                    val = self._ref_value(fr, v)
                 if isinstance(val, Ref):
                     val = TOP
                 extra[key] = val
@@ -1642,12 +1652,12 @@ class Interp:
             # references into the caller's frame among the arguments (iterator items of iter_mut etc.)
             if isinstance(v, Ref):
                 r = v
-                val = fr._project(fr.store.get(r.root, TOP), r.proj)
+                val = self._ref_value(fr, r)
                 for _ in range(8):
                     if not isinstance(val, Ref):
                         break
                     r = val
-                    val = fr._project(fr.store.get(r.root, TOP), r.proj)
+                    val = self._ref_value(fr, r)
                 key = ('up', tag, len(fr.store), len(extra))
                 extra[key] = TOP if isinstance(val, Ref) else val
                 back.append((key, r))
@@ -1785,11 +1795,11 @@ class Interp:
 
         def reroot(v, depth=0):
             if isinstance(v, Ref) and depth < 6:
-                val = fr._project(fr.store.get(v.root, TOP), v.proj)
+                val = self._ref_value(fr, v)
                 for _ in range(8):
                     if not isinstance(val, Ref):
                         break
-                    val = fr._project(fr.store.get(val.root, TOP), val.proj)
+                    val = self._ref_value(fr, val)
                 key = ('arg', len(nested), len(fr.store))
                 nested[key] = reroot(val, depth + 1) if isinstance(val, Agg) else val
                 return Ref(key, [])
